@@ -299,6 +299,27 @@ def shared_inputs(world):
     return _SHARED[key]
 
 
+def period_of(world):
+    """(start date, end date) of the simulated period; default: the whole calendar years of the world"""
+    import datetime as _dt
+
+    per = world.get("period")
+    if per:
+        return _dt.date.fromisoformat(per[0]), _dt.date.fromisoformat(per[1])
+    return _dt.date(world["years"][0], 1, 1), _dt.date(world["years"][-1], 12, 31)
+
+
+def real_simulation_years(start, end):
+    """SimulationManager.calc_simulation_years (real) on a start and an end date"""
+    class _S:
+        pass
+
+    st = _S()
+    st.sim_start_date, st.sim_end_date = start, end
+    SM.SimulationManager.calc_simulation_years(st)
+    return list(st.simulation_years)
+
+
 def class_state():
     """module- / class-level containers of the summary code (must not change during a process)"""
     from constants.file_processing_const import Multi_Sim_Output_Const as M
@@ -377,12 +398,23 @@ def run_world(world, rng, mode="shuffle", out=None):
     log = []
     try:
         (cfg, years, programs), pristine = shared_inputs(world)
-        manager = SummaryOutputManager(out, cfg, years, programs)
 
         def hook(*ev):
             events.append(tuple(ev))
 
-        stub = _StubManager(world, out, manager, hook)
+        # the year list is computed by the real code from the configured dates and handed to the summary
+        # managers by the real wiring (calc_simulation_years -> initialize_summary_managers)
+        stub = _StubManager(world, out, None, hook)
+        start, end = period_of(world)
+        stub.sim_start_date, stub.sim_end_date = start, end
+        stub.output_params = cfg
+        stub.programs = programs
+        stub.virtual_world = {pdc.Virtual_World_Params.N_SITES: 1}
+        SM.SimulationManager.calc_simulation_years(stub)
+        real_years = list(stub.simulation_years)
+        SM.SimulationManager.initialize_summary_managers(stub)
+        stub.summary_visualization_manager = _NoVis()
+        manager = stub.summary_stats_manager
         real_gen = manager.gen_summary_outputs
 
         def snapshot():
@@ -437,7 +469,7 @@ def run_world(world, rng, mode="shuffle", out=None):
         final["cost"] = read_summary(out / (Output_Files.SummaryFileNames.COST_SUMMARY + ".csv"))
         mutated = [name for name, a, b in zip(("output_config", "sim_years", "programs"), (cfg, years, programs), pristine)
                    if a != b]
-        return {"events": events, "final": final, "error": error, "mutated_inputs": mutated,
+        return {"events": events, "final": final, "error": error, "mutated_inputs": mutated, "real_years": real_years,
                 "batches": list(batch_simulations(world["n"]))}
     finally:
         if tmp is not None:
